@@ -656,6 +656,13 @@ func (f *Frame) evalCall(e *CExpr, env *Env) *Val {
 	name := e.A.Name
 	arg := func(i int) *Val { return f.evalC(e.Args[i], env) }
 	switch name {
+	case "real":
+		// real(i): the integer i as a real number (float64 values are modelled as reals)
+		a := arg(0)
+		if a.K != VScalar || a.X == nil {
+			f.E.fail("real() needs a number")
+		}
+		return &Val{K: VScalar, T: types.Typ[types.Float64], X: toReal(a.X)}
 	case "len":
 		a := arg(0)
 		switch a.K {
